@@ -95,6 +95,7 @@ fn one_request(strategy: u8) {
     assert!(p.is_ready(), "[C17.resolves] resolves as soon as the inner call (and the backup) resolved");
     let r = match p { Poll::Ready(r) => r, Poll::Pending => return };
     assert!(mon().calls == 1 && mon().last_req == req, "[C17.forwards_once] the request is forwarded once, unchanged");
+    assert!(mon().unready_calls == 0, "[C20.fallback_ready_instance] the call goes to the instance on which readiness was observed");
     match script.outcomes[0] {
         Ok(v) => {
             assert!(matches!(r, Ok(x) if x == v), "[C17.success_passes_unchanged] a successful inner response passes through unchanged");
